@@ -30,6 +30,7 @@ mod e03;
 mod e02;
 mod e04;
 mod e05;
+mod e07;
 mod c05;
 
 #[global_allocator]
@@ -73,6 +74,7 @@ fn props() -> Vec<Prop> {
         Prop { id: "E04", run: e04::run, gen: e04::gen },
         Prop { id: "E05", run: e05::run, gen: e05::gen },
         Prop { id: "E06", run: c13::run, gen: c13::gen_e06 },
+        Prop { id: "E07", run: e07::run, gen: e07::gen },
     ]
 }
 
